@@ -152,9 +152,10 @@ def beh_to_scenario(sid, beh, origin="simulate"):
         if r["op"] == "Update":
             step["parts"] = r["parts"]
         steps.append(step)
-    return {"id": sid, "origin": origin, "backend": beh[0][2]["backend"], "content": from_tla(beh[0][2]["content"]),
-            "store": from_tla(beh[0][2]["store"]),
-            "steps": steps}
+    scn = {"id": sid, "origin": origin, "backend": beh[0][2]["backend"], "content": from_tla(beh[0][2]["content"]),
+           "store": from_tla(beh[0][2]["store"]), "steps": steps}
+    scn["concurrent_material"] = beh[0][2].get("foc") == "conc"      # read-only undisturbed requests only
+    return scn
 
 
 def par_run(fn, items, nproc):
@@ -234,6 +235,9 @@ def run(ctx):
         "the backing store is the FILE backend; an external writer replaces the whole file between two requests (never during "
         "one); the four candidates c/{PHYSICS,ANY}/{r,any}/x are added / replaced / removed; the Consul backend keeps no "
         "copy of the store (every Exists/Get is a KV read); on harness/fakeconsul the external write is a direct KV put/delete",
+        "concurrent requests: free-running goroutines against one service with a read-only store (no scheduling control; a "
+        "logrus hook yields at every log call of the code under test); each answer is judged as a function of its request and "
+        "the unchanged store, so no verdict depends on timing",
         "backend faults hit existence checks only, between well-defined requests: file backend = the file is unparseable for the "
         "whole request (every check fails), Consul backend = the i-th KV GET of the request is answered HTTP 500 for i in a "
         "scripted set; the store content itself is not changed by a fault; under faults only 'fails or names an existing entry' "
@@ -259,6 +263,7 @@ def run(ctx):
         svc_models = [("svc-model", cfg_svc(esc, 3, [3], [1], storeinit=[0], editvals=[0, 1],
                                             faults=[[], [1], [2, 3], [1, 2, 3, 4]]))]
         svc_nsim, svc_steps = 400, 9
+        stress_runs, stress_repeat = 8, 60
     else:
         jobs = [
             ("str-exhaustive", cfg_gen(esc, ["str"], INV_STR, alphabet=NARROW, maxlen=7)),
@@ -278,6 +283,7 @@ def run(ctx):
                                                    backends=["file"], faults=[[]])),
                       ("svc-model-store", cfg_svc(esc, 3, [], [], storeinit=[0, 1], editvals=[0, 1, 2]))]
         svc_nsim, svc_steps = 2500, 14
+        stress_runs, stress_repeat = 30, 80
 
     simjobs = [("simulate-%d" % i, cfg_edit(esc, maxedits, maxseg)) for i in range(1, nsimjobs + 1)]
     svcjobs = [("svc-simulate", cfg_svc(esc, svc_steps, range(1, 10), range(1, 5), gen=True, invs=True, focus="mixed"))] + svc_models
@@ -393,6 +399,7 @@ def run(ctx):
             if len(cex) < 2:
                 raise vlib.Inconclusive("cannot read the counterexample of ConfigQuerySvc")
             scenarios.append(beh_to_scenario(len(scenarios) + 1, cex, org + ":" + r.violated[0]))
+            scenarios[-1].pop("concurrent_material", None)
             spredicted.append((r.violated[0], scenarios[-1]["id"]))
     sbehs = []
     for f in sorted(glob.glob(os.path.join(rsim.dir, "sim", "b_*")), key=vlib._natkey):
@@ -401,9 +408,15 @@ def run(ctx):
     if not sbehs and not rsim.violated:
         ctx.save_debug(rsim, "tlc_sim_ConfigQuerySvcGen.txt")
         raise vlib.Inconclusive("TLC simulation of ConfigQuerySvcGen failed: %s" % vlib.tail(rsim.out))
+    nstress = 0
     for b in sbehs:
         if len(b) > 1:
             scenarios.append(beh_to_scenario(len(scenarios) + 10, b))
+            if scenarios[-1].pop("concurrent_material") and nstress < stress_runs:
+                # free-running stress: 16 goroutines issue these requests over and over against the one service
+                nstress += 1
+                scenarios[-1]["origin"] = "simulate-concurrent"
+                scenarios[-1]["stress"] = {"workers": 16, "repeat": stress_repeat, "filler": 0}
     ctx.model_runs.append({"module": "ConfigQuerySvcGen", "cfg": "simulate", "behaviours": len(sbehs),
                            "result": "ok" if not rsim.violated else "violated", "wall_s": round(rsim.wall, 1)})
     ctx.log("generated %d request sequences (%d requests)" % (len(scenarios), sum(len(x["steps"]) for x in scenarios)))
@@ -554,6 +567,7 @@ def execute(ctx, esc, cases, origin, nproc, predicted=(), scenarios=(), spredict
                                     "of src.Exists); it never names a non-existing path, which is what is claimed under faults"
                                     % (o.get("query"), o.get("resolved")))
     ctx.extra["request_sequences"] = {"sequences": len(scenarios), "requests": sum(len(x["steps"]) for x in scenarios),
+                                      "concurrent_sequences": sum(1 for x in scenarios if x.get("stress")),
                                       "trace_lines": len(slines)}
     if scenarios:
         ctx.sample({"request_sequence": scenarios[-1], "trace": [x for x in slines if x.get("scn") == scenarios[-1]["id"]][:6]})
